@@ -29,6 +29,7 @@ struct netbuf_read {
 	void * cookie;			/* Cookie for _wait. */
 	void * read_cookie;		/* From network_read. */
 	void * immediate_cookie;	/* From events_immediate_register. */
+	size_t waitlen;			/* Bytes wanted by _wait. */
 
 	/* Buffer state. */
 	uint8_t * buf;			/* Current read buffer. */
@@ -136,6 +137,35 @@ err0:
 	return (-1);
 }
 
+/*
+ * Start reading into the free space of the buffer.  We ask for at least one
+ * byte and account for data as it arrives (rather than asking the network
+ * layer for everything the wait needs): bytes which have been received but
+ * not yet reported to us would be lost if the wait were cancelled.
+ */
+static int
+startread(struct netbuf_read * R)
+{
+
+	if (R->ssl) {
+		if ((R->read_cookie = (netbuf_read_ssl_func)(R->ssl,
+		    &R->buf[R->datalen], R->buflen - R->datalen, 1,
+		    callback_read, R)) == NULL)
+			goto err0;
+	} else {
+		if ((R->read_cookie = network_read(R->s, &R->buf[R->datalen],
+		    R->buflen - R->datalen, 1, callback_read, R)) == NULL)
+			goto err0;
+	}
+
+	/* Success! */
+	return (0);
+
+err0:
+	/* Failure! */
+	return (-1);
+}
+
 /**
  * netbuf_read_wait(R, len, callback, cookie):
  * Wait until ${R} has ${len} or more bytes of data buffered or an error
@@ -176,17 +206,9 @@ netbuf_read_wait(struct netbuf_read * R, size_t len,
 	}
 
 	/* Read data into the buffer. */
-	if (R->ssl) {
-		if ((R->read_cookie = (netbuf_read_ssl_func)(R->ssl,
-		    &R->buf[R->datalen], R->buflen - R->datalen,
-		    R->bufpos + len - R->datalen, callback_read, R)) == NULL)
-			goto err0;
-	} else {
-		if ((R->read_cookie = network_read(R->s, &R->buf[R->datalen],
-		    R->buflen - R->datalen, R->bufpos + len - R->datalen,
-		    callback_read, R)) == NULL)
-			goto err0;
-	}
+	R->waitlen = len;
+	if (startread(R))
+		goto err0;
 
 done:
 	/* Success! */
@@ -235,6 +257,13 @@ callback_read(void * cookie, ssize_t lenread)
 
 	/* We've got more data. */
 	R->datalen += (size_t)lenread;
+
+	/* If we don't have enough yet, keep reading. */
+	if (R->datalen - R->bufpos < R->waitlen) {
+		if (startread(R))
+			goto failed;
+		return (0);
+	}
 
 	/* Perform callback. */
 	return ((R->callback)(R->cookie, 0));
